@@ -739,6 +739,32 @@ package forwarder
 //@   at call ParseCIDR:
 //@     assert [cidr] arg0 == dnn.Cidr
 
+// OpenGtp5gLink: the link object is handed out only after the gtp5g device was created, brought up and looked up; every failure
+// path closes what was opened and returns no link.  The GTP-U address and the MTU are the ones asked for.
+//@ func OpenGtp5gLink(mux *nl.Mux, addr string, mtu uint32, log *logrus.Entry) (g *Gtp5gLink, err error)
+//@   locals g:*forwarder.Gtp5gLink | rtconn:*nl.Conn | err:error | laddr:*net.UDPAddr | conn:*net.UDPConn | f:*os.File | linkinfo:*nl.Attr | attrs:[]*nl.Attr | link:*gtp5gnl.Link
+//@   ensures [err] err != nil ==> g == nil
+//@   ensures [ok]  err == nil ==> g != nil && g.link != nil && g.conn != nil && g.f != nil && g.mux == mux
+//@   modifies *
+//@   flag perreturn
+//@   serves C20 C07
+//@   at call ResolveUDPAddr:
+//@     assert [addr] arg0 == "udp4" && arg1 == addr
+//@   at call append~IFLA_MTU:
+//@     assert [mtu]  mtu != 0 && len(arg1) == 1 && arg1[0].Type == syscall.IFLA_MTU && arg1[0].Value == iface(nl.AttrU32(mtu))
+//@   at call Create:
+//@     assert [dev]  arg1 == "upfgtp" && len(arg2) == ite(mtu != 0, 2, 1)
+//@   after call nl.Open:
+//@     assume [A-NLOPEN] ret1 == nil ==> ret0 != nil
+//@   after call ResolveUDPAddr:
+//@     assume [A-NLOPEN] ret1 == nil ==> ret0 != nil
+//@   after call ListenUDP:
+//@     assume [A-NLOPEN] ret1 == nil ==> ret0 != nil
+//@   after call File:
+//@     assume [A-NLOPEN] ret1 == nil ==> ret0 != nil
+//@   after call GetLink:
+//@     assume [A-NLOPEN] ret1 == nil ==> ret0 != nil
+
 // OpenGtp5g: a Gtp5g is handed out only after checkVersion accepted the module ([ver]); every failure path closes what
 // was opened and returns no driver.  A-NLOPEN (assumed): constructors of the netlink libraries return non-nil objects
 // together with a nil error.
@@ -755,8 +781,6 @@ package forwarder
 //@   serves C20 C07
 //@   at call OpenGtp5gLink:
 //@     assert [args] arg1 == addr && arg2 == mtu
-//@   after call OpenGtp5gLink:
-//@     assume [A-NLOPEN] ret1 == nil ==> ret0 != nil && ret0.link != nil
 //@   after call gtp5gnl.NewClient#1:
 //@     assume [A-NLOPEN] ret1 == nil ==> ret0 != nil
 //@   after call gtp5gnl.NewClient#2:
